@@ -2,7 +2,7 @@ SPECIFICATION Spec
 CONSTANTS
   KF_IntermediateAKCounts = FALSE
   MaxSigners = 4
-  NestedChoices = 4
+  NestedChoices = 3
   WithNegative = TRUE
   MaxOps = 100
 INVARIANTS TypeOK EvalEqSat Monotone OnceOnly DeviationExact
